@@ -275,18 +275,25 @@ def _rec_unquote(s, *a, **k):
     return '<' + s + '>'
 
 
-def k_read(pre: str, q: str, post: str) -> str:
+PREFIXES = ['[Trash Info]\n', '', '[Trash Info]\nDeletionDate=2020-01-01T00:00:00\n', 'X=1\n Path=no\n', '[Trash Info]\n\n', 'path=no\nPath =no\n']
+SUFFIXES = ['\nDeletionDate=2020-01-01T00:00:00\n', '\n', '', '\nPath=later\n', '\nPath=\nPath=x']
+
+
+def k_read(pre: int, q: str, post: int) -> str:
     """
-    pre: len(pre) <= 3 and len(q) <= 3 and len(post) <= 3
+    pre: PARTITION is None or pre == PARTITION
+    pre: 0 <= pre < 6 and 0 <= post < 5
+    pre: len(q) <= 4
     pre: chr(10) not in q
-    pre: not pre.startswith('Path=') and (chr(10) + 'Path=') not in pre
     post: _ == ''
     """
     rt.begin()
     import trashcli.parse_trashinfo.parse_path as pp
-    content = pre + ('\n' if pre else '') + 'Path=' + q + '\n' + post
-    if pre == 'Path':  # 'Path' + '\n' cannot form a Path= line; nothing to exclude
-        pass
+    # (CrossHair 0.0.110 mis-evaluates  symbolic + ''  : never concatenate a concrete empty string)
+    content = PREFIXES[rt.sel(pre, 6)] + 'Path=' + q
+    suffix = SUFFIXES[rt.sel(post, 5)]
+    if suffix != '':
+        content = content + suffix
     saved = pp.unquote
     pp.unquote = _rec_unquote
     del UNQ[:]
@@ -294,8 +301,15 @@ def k_read(pre: str, q: str, post: str) -> str:
         got = pp.parse_path(content)
     finally:
         pp.unquote = saved
-    if UNQ != [q] or got != '<' + q + '>':
-        return rt.fail('C03:read-side-value', 'content %r: the un-quoter received %r, the text after the first Path= is %r' % (content, UNQ, q))
+    why = ''
+    if len(UNQ) != 1:
+        why = 'calls'
+    elif not (UNQ[0] == q):
+        why = 'argval'
+    elif not (got == '<' + q + '>'):
+        why = 'retval'
+    if why:
+        return rt.fail('C03:read-side-value:' + why, 'content %r: the un-quoter received %r, the text after the first Path= is %r' % (content, UNQ, q))
     return rt.ok()
 
 
@@ -307,21 +321,28 @@ class _Fs(object):
         return self.rp
 
 
-def k_location(parent: str, volume: str, name: str, relative: bool) -> str:
+LOCNAMES = ['n', 'a b', '.h', 'x.trashinfo']
+
+
+def k_location(volume: str, rest: str, namesel: int, relative: bool) -> str:
     """
-    pre: 1 <= len(parent) <= 5 and 1 <= len(volume) <= 4 and 1 <= len(name) <= 2
-    pre: parent.startswith('/') and volume.startswith('/')
-    pre: '//' not in parent and '//' not in volume and '/' not in name and name != '.' and name != '..'
-    pre: not (len(volume) > 1 and volume.endswith('/')) and not (len(parent) > 1 and parent.endswith('/'))
-    pre: '/./' not in parent + '/' and '/../' not in parent + '/'
-    pre: parent == volume or parent.startswith(volume + '/') or volume == '/'
+    pre: 1 <= len(volume) <= 3 and len(rest) <= 3 and 0 <= namesel < 4
+    pre: volume[0] == '/' and (len(volume) == 1 or volume[-1] != '/')
+    pre: not rest.startswith('/') and not rest.endswith('/')
     post: _ == ''
     """
-    # parent: realpath of the directory holding the entry (absolute, normalised, inside the volume)
+    name = LOCNAMES[rt.sel(namesel, 4)]
+    # parent (realpath of the directory holding the entry) = volume, or volume + '/' + rest
     rt.begin()
     import posixpath
     from trashcli.put.original_location import OriginalLocation
     from trashcli.put.core.path_maker_type import PathMakerType
+    if rest == '':
+        parent = volume
+    elif volume == '/':
+        parent = '/' + rest
+    else:
+        parent = volume + '/' + rest
     pm = PathMakerType.RelativePaths if relative else PathMakerType.AbsolutePaths
     got = OriginalLocation(_Fs(parent)).for_file('whatever/' + name, pm, volume)
     loc = posixpath.join(parent, name)
@@ -329,13 +350,11 @@ def k_location(parent: str, volume: str, name: str, relative: bool) -> str:
         if got != loc:
             return rt.fail('C03:absolute-location', 'for_file -> %r, the location is %r' % (got, loc))
         return rt.ok()
-    if got.startswith('/'):
-        return rt.fail('C03:relative-location-is-absolute:%s' % ('root-volume' if volume == '/' else 'other'),
-                       'entry %r on volume %r: Path would be %r (must be relative to the volume top directory)' % (loc, volume, got))
-    if '/../' in '/' + got + '/':
-        return rt.fail('C03:relative-location-has-dotdot', repr(got))
-    if posixpath.normpath(posixpath.join(volume, got)) != loc:
-        return rt.fail('C03:relative-location-does-not-resolve', 'volume %r + %r != %r' % (volume, got, loc))
+    want = name if rest == '' else rest + '/' + name
+    if got != want:
+        key = 'C03:relative-location-is-absolute' if got[:1] == '/' else 'C03:relative-location-wrong'
+        return rt.fail('%s:%s' % (key, 'root-volume' if volume == '/' else 'other'),
+                       'entry %r on volume %r: Path would be %r, relative to the volume top directory it is %r' % (loc, volume, got, want))
     return rt.ok()
 
 
@@ -496,11 +515,11 @@ def obligations(tier):
         ZQ('Z_date_roundtrip', MOD, 'z_date', timeout=60, encodes=['format_date', 'ParseTrashInfo.parse_trashinfo (format constant)', 'Clock.get_now_value (TRASH_DATE format)'],
            bounds='all field values: year 1000..9999, month, day 1..31, hour, minute, second'),
         ZQ('Z_clock_is_local_now', MOD, 'z_clock', timeout=30, encodes=['RealClock.now (AST)'], bounds='syntactic'),
-        CH('K_read_first_path_value', MOD, 'k_read', timeout=300, engine='K', regime='traced', encodes=['parse_path'],
-           stubs=['unquote -> recorder'], bounds='prefix text, value, suffix text: any str len<=3 each (value without newline, prefix without a Path= line)'),
+        CH('K_read_first_path_value', MOD, 'k_read', timeout=300, partitions=list(range(6)), engine='K', regime='traced', encodes=['parse_path'],
+           stubs=['unquote -> recorder'], bounds='value: any str len<=4 without newline; 6 prefixes x 5 suffixes of other lines (symbolic selectors)'),
         CH('K_location_relative_or_absolute', MOD, 'k_location', timeout=600, engine='K', regime='traced',
            encodes=['OriginalLocation.for_file', 'OriginalLocation._calc_parent_path'], stubs=['realpath -> symbolic parent'],
-           bounds='parent: normalised absolute str len<=5 inside volume (len<=4); name len<=2'),
+           bounds='volume: any mount-point-shaped str len<=3; parent = volume or volume/rest (rest any str len<=3); name from a table of 4 (names are the codec obligations)'),
         CH('W_every_byte_value', MOD, 'w_bytes', timeout=900, partitions=[0, 1, 2], engine='W', regime='selector',
            encodes=K.PUT_FUNCS + K.LIST_FUNCS, stubs=K.STUBS,
            bounds='names: every single byte 1..255 except "/" (0x80.. as undecodable bytes) + 30 special names incl. 255-byte names x 3 layouts x 2 depths'),
